@@ -96,10 +96,23 @@ func (br *xmpReader) readAttribute(tag *Tag) (attr Attribute, err error) {
 	attr.pt = attrPType
 	attr.parent = tag.self
 
-	// Attribute Name
-	if buf, err = br.Peek(maxTagHeaderSize); err != nil {
-		err = errors.Wrap(err, "Attr")
-		return
+	// Attribute Name. White space in front of it may be longer than the look-ahead window: consume it first.
+	for {
+		if buf, err = br.Peek(maxTagHeaderSize); err != nil {
+			err = errors.Wrap(err, "Attr")
+			return
+		}
+		n := 0
+		for n < len(buf) && isSpace(buf[n]) {
+			n++
+		}
+		if n == 0 {
+			break
+		}
+		if _, err = br.Discard(n); err != nil {
+			err = errors.Wrap(err, "Attr (discard)")
+			return
+		}
 	}
 
 	var d int
